@@ -138,7 +138,8 @@ def _deribit(S):
     return deribit_world(S, (("I0", "CALL", sh["state"]),), sh["n"], sh["n"], ("I0",) if sh["held"] else (), H0 if sh["ts"] == "open" else H0_1)
 
 
-@proof("C03", "deribit/buy,sell", strength="S", shapes=DERIBIT_SHAPES, config={"max_seconds": 600})
+@proof("C03", "deribit/buy,sell", strength="S", shapes=DERIBIT_SHAPES, config={"max_seconds": 600},
+       covers=lambda sh: ("accepted",) if sh["state"] == "open" and sh["ts"] == "open" else ())
 def po_deribit_trade(S):
     w = _deribit(S)
     m = w.market
@@ -330,7 +331,7 @@ def uni_amounts(w):
 UNI_OPS = {"quick": [{"q0": True}, {"q0": False}], "thorough": [{"q0": True}, {"q0": False}]}
 
 
-@proof("C03", "uniswap/buy,sell,swap-at-pool-price:lose-exactly-the-fee", strength="S", shapes=UNI_OPS, contracts=UNI_CONTRACTS)
+@proof("C03", "uniswap/buy,sell,swap-at-pool-price:lose-exactly-the-fee", strength="S", shapes=UNI_OPS, contracts=UNI_CONTRACTS, covers=("accepted",))
 def po_uni_swap(S):
     q0 = S.shape["q0"]
     w = uni_at_bar(uni_world(S, 6, 18, q0, 1, 0.05))
